@@ -1,10 +1,13 @@
 CONSTANTS
   MCTrees <- MCTreesAll
+  WithNextPanic = TRUE
+  SuccessOnlyAtEnd = TRUE
+  RegisterAtomic = TRUE
   KeepFirstError = TRUE
   RecoverPerStage = TRUE
   FirstErrorWins = TRUE
   ErrReadAtCompletion = TRUE
 SPECIFICATION MCSpec
-INVARIANTS AtMostOnce OnlyAfterAll OnlyAfterAllStrong ErrorReported ExactlyOnceAtEnd PendingSane PreOrderOK NoOpAfterFailure FailureIsOutcome WalkComplete
+INVARIANTS AtMostOnce OnlyAfterAll OnlyAfterAllStrong ErrorReported ExactlyOnceAtEnd PendingSane PreOrderOK NoOpAfterFailure FailureIsOutcome WalkComplete CompletedOnce
 PROPERTY Terminates
 CHECK_DEADLOCK FALSE
